@@ -228,7 +228,8 @@ Definition cstep (c : cluster) (a : action) : result cluster :=
 (* ---------- observable of the cluster: per node (id, up, fsm, master, instance states, pending handshakes,
    inbox length), and the length of every channel i -> j in node order ---------- *)
 Definition cobs_node := (Z * bool * Z * Z * list (Z * Z) * list Z * Z)%type.
-(* third component: per node, the state & modes views it holds of every instance (Node.views_of) *)
+(* third component: per node, the state & modes views it holds of the instances of the cluster (Node.views_of) *)
+Definition vrow_id (v : vrow) : Z := match v with (i, _, _, _, _) => i end.
 Definition cobs := (list cobs_node * list Z * list (Z * list vrow))%type.
 Definition cobs_nodes (o : cobs) : list cobs_node := fst (fst o).
 Definition cobs_chans (o : cobs) : list Z := snd (fst o).
@@ -241,7 +242,7 @@ Definition cobserve (c : cluster) : cobs :=
            map (fun x => (fst x, icode (snd x))) (sm_insts s), cn_pending cn, Z.of_nat (length (cn_inbox cn))))
        (c_nodes c),
    flat_map (fun i => map (fun j => Z.of_nat (length (chan c i j))) ids) ids,
-   map (fun kv => (fst kv, views_of (cn_node (snd kv)))) (c_nodes c)).
+   map (fun kv => (fst kv, filter (fun v => amem (vrow_id v) (c_nodes c)) (views_of (cn_node (snd kv))))) (c_nodes c)).
 
 Inductive cres := COk (o : cobs) | CCrash (k : crash).
 
